@@ -161,6 +161,25 @@ def run(ctx):
             camp.sh.maybe_flush()
             if i < 3:
                 ctx.sample({"program": prog})
+        # a RawCopy built where bytes already follow it (a header slot reserved first, filled in through a Pointer once the body is written):
+        # `data` is what the member wrote, not what happens to lie behind it
+        for hdr, hv, hd in ((A.Alias("Int16ub"), 0x0102, b"\x01\x02"), (A.Struct(A.Renamed("a", A.Alias("Byte")), A.Renamed("b", A.Alias("Byte"))), {"a": 3, "b": 4}, b"\x03\x04"),
+                            (A.Bytes(2), b"hi", b"hi")):
+            for h in ("sum8", "crc32", "sha256_i64"):
+                prog = A.Struct(A.Renamed("at", A.Tell), A.Padding(2), A.Renamed("body", A.Bytes(3)), A.Renamed("hdr", A.Pointer(A.T("at"), A.RawCopy(hdr))),
+                                A.Renamed("chk", A.Checksum(digest_field(rng, h), h, A.T("hdr", "data"))))
+                con = campaign.realizable(prog)
+                if con is None:
+                    continue
+                A.prime_hashes(prog, [hd])
+                iv, bv = camp.build(prog, con, {"body": b"abc", "hdr": {"value": hv}}, rng.choice([b"", b"\xee"]), {})
+                idd, bd = camp.build(prog, con, {"body": b"abc", "hdr": {"data": hd}}, b"", {})
+                if bv["res"]["ok"]:
+                    out = bytes(bv["res"]["v"]["b"])
+                    ip, p = camp.parse(prog, con, out, 0, {})
+                    camp.sh.session("C14.verifies", [iv, ip])
+                    nt += 1
+            camp.sh.maybe_flush()
         # spec -> code: every session TLC explores on the RawCopy part of the model's universe (machine clauses checked on the design there)
         uprogs, ukw, sessions, _ = speccode.explore(ctx, focus="C14", part=speccode.part_of(ctx, 8 if quick else 6))
         nt += speccode.drive(camp, uprogs, ukw, sessions)
